@@ -53,7 +53,15 @@ class Cleanup:
         """
         self.run = lambda source: source
         if cleanup_strategy == "full":
-            self.run = Cleanup.full_cleaning
+            self.run = Cleanup.safe_full_cleaning
+
+    @staticmethod
+    def safe_full_cleaning(source: Source) -> Source:
+        """Clean the source, unless it cannot be tokenized: the parser will then report the error."""
+        try:
+            return Cleanup.full_cleaning(source)
+        except Exception:  # TokenError, IndentationError, TabError... whatever the tokenizer says,
+            return source  # let the parser speak
 
     @staticmethod
     def full_cleaning(source: Source) -> Source:
